@@ -20,7 +20,7 @@ NUM_ASSUME = [
 ]
 
 
-def num_check(pid, cases_quick, cases_thorough, variants=("base",), min_nt=(200, 2000), extra_args=(), rule=NUM_RULE, assumptions=NUM_ASSUME, tq=900, tt=3000):
+def num_check(pid, cases_quick, cases_thorough, variants=("base",), min_nt=(200, 2000), extra_args=(), rule=NUM_RULE, assumptions=NUM_ASSUME, tq=900, tt=3000, binary="num", with_prop=True):
     def workers(tier, seed, work):
         n = cases_quick if tier == "quick" else cases_thorough
         jobs = []
@@ -31,14 +31,15 @@ def num_check(pid, cases_quick, cases_thorough, variants=("base",), min_nt=(200,
         for v in vs:
             for i in range(nw):
                 d = os.path.join(work, f"{v}_w{i}")
-                jobs.append(dict(argv=[os.path.join(BIN, f"num.{v}"), "--prop", pid, "--seed", str(mix(seed, k)), "--cases", str(per),
+                jobs.append(dict(argv=[os.path.join(BIN, f"{binary}.{v}")] + (["--prop", pid] if with_prop else []) + ["--seed", str(mix(seed, k)), "--cases", str(per),
                                        "--out", os.path.join(d, "stats.json"), "--faildir", d] + list(extra_args),
                                  out=os.path.join(d, "stats.json"), faildir=d))
                 k += 1
         return jobs
 
-    return dict(id=pid, variants=list(variants), bins=[f"num.{v}" for v in variants], workers=workers,
-                replay_argv=lambda path: [[os.path.join(BIN, "num.base"), "--replay", path]],
+    return dict(id=pid, variants=list(variants), bins=[f"{binary}.{v}" for v in variants], workers=workers,
+                replay_argv=lambda path: [[os.path.join(BIN, f"{binary}.base"), "--replay", path]],
+                variants_for=lambda tier: (list(variants) if tier == "thorough" else [variants[0]], [f"{binary}.{v}" for v in (variants if tier == "thorough" else variants[:1])]),
                 rule=rule, assumptions=assumptions, per_cell=True,
                 min_nontrivial={"quick": min_nt[0], "thorough": min_nt[1]}, timeout={"quick": tq, "thorough": tt})
 
@@ -53,3 +54,12 @@ CHECKS["C06"] = num_check("C06", 32000, 800000)
 CHECKS["C07"] = num_check("C07", 3200, 64000)
 CHECKS["C08"] = num_check("C08", 12800, 320000)
 CHECKS["C09"] = num_check("C09", 1600, 32000, variants=("base", "opt"))
+
+C20_RULE = ("for each of 20 (richer, simpler) solution pairs and both scalar types rapidcheck generates the simpler solution's full parameter "
+            "assignment and point plus the richer solution's remaining parameters; shared parameters are copied, the specialising ones are set to 0 "
+            "(z-amplitudes and the w field; mu = k = 0; temporal amplitudes; A_t..D_t; k_1,k_2,cp_1,cp_2); both solutions live on two handles of one "
+            "process and are evaluated alternately; corresponding sources must agree within 32*eps*(mag_a+mag_b), the AD oracle supplying the scale only. "
+            "Non-trivial as for the residual checks (on the simpler case); distinct = distinct (pair, both assignments, points) hashes.")
+CHECKS["C20"] = num_check("C20", 4000, 100000, binary="c20", with_prop=False, rule=C20_RULE,
+                          assumptions=["the reference operator is used only as the scale of the comparison, never in the verdict",
+                                       "shared parameters are the ones with identical names in both solutions"])
